@@ -152,6 +152,62 @@ def add_oscat(text, rng, non_ascii):
     return hdr + text
 
 
+def relayout(text):
+    """Same length, one line break moved (before anything a diagnostic could point at later in the text)."""
+    k1 = text.find("\n")
+    k2 = text.find(" ", k1 + 2) if k1 >= 0 else -1
+    if k1 <= 0 or k2 <= 0:
+        return None
+    return text[:k1] + " " + text[k1 + 1:k2] + "\n" + text[k2 + 1:]
+
+
+def lsp_positions(res, probe, tmp, text, code, case):
+    """The start of every published diagnostic must be the reference line/character of a label offset that the
+    analyzer reports for the same text - also after edits that keep the document's length."""
+    import lsp
+    variants = [text]
+    r = relayout(text)
+    if r:
+        variants += [r, text, "\n" + text[:-1] if text.endswith("\n") else text]
+    s = lsp.Session(tmp)
+    uri = "file:///w/pos.st"
+    try:
+        for v, doc in enumerate(variants):
+            if v == 0:
+                s.open(uri, doc, 1)
+            else:
+                s.change(uri, [doc], v + 1)
+            rid = s.tokens(uri)
+            resp, before = s.wait_response(rid, 20.0)
+            res.evaluations += 1
+            res.count("lsp-position")
+            if resp in (None, "timeout"):
+                return
+            pubs = [m for m in before if m.get("method") == "textDocument/publishDiagnostics"]
+            if not pubs:
+                continue
+            obs = probe.run({"op": "analyze", "files": [["/w/pos.st", doc]]})
+            if "diags" not in obs:
+                continue
+            refs = set()
+            for d in obs["diags"] + [p_["diag"] for p_ in obs.get("parse", []) if not p_["ok"]]:
+                rc = ref_linecol(doc, d["primary"]["start"])
+                if rc:
+                    for c in rc[1]:
+                        refs.add((d["code"], rc[0], c))
+            for pd in pubs[-1]["params"]["diagnostics"]:
+                got = (pd.get("code"), pd["range"]["start"]["line"], pd["range"]["start"]["character"])
+                if pd.get("code") in ("P9999", "P0030"):
+                    continue
+                if got not in refs:
+                    res.violation("lsp-position", "lsp:linecol:%s" % ("after-edit" if v else "open"),
+                                  {"published": got, "reference": sorted(refs)[:6], "step": v}, dict(case, text=doc))
+                    return
+    finally:
+        s.shutdown(5.0)
+        s.kill()
+
+
 def shard(shard_i, nshards, payload):
     res = core.Result()
     probe = core.Probe()
@@ -242,6 +298,8 @@ def shard(shard_i, nshards, payload):
                             break
                 if good:
                     res.distinct.add(core.key_of("diag", code, site))
+                if good and i % 4 == 1:
+                    lsp_positions(res, probe, tmp, text, code, case)
                 # (5) the CLI's line:col for the planted code
                 if good and i % 4 == 0 and core.PLC_BIN:
                     d_ = os.path.join(tmp, "u%d" % i)
